@@ -200,6 +200,20 @@ func decode(c *mon.Ctx, e *ref.EBP) {
 			copy(in, snap)
 		}
 	}
+	// decoding is a function of the bytes: the decoded object's grouping ids (an exported field) are overwritten in
+	// place, then the same bytes are decoded again
+	x0, _ := ebp.ReadEncoderBoundaryPoint(append([]byte{}, snap...)) // (an object of its own: x is looked at again below)
+	if g, found := fieldBytes(x0, "Grouping"); found && len(g) > 0 {
+		for k := range g {
+			g[k] ^= 0x2b
+		}
+		c.Count("decoded_again_after_the_first_objects_grouping_ids_were_overwritten")
+		if x2, err := ebp.ReadEncoderBoundaryPoint(append([]byte{}, snap...)); err != nil || x2 == nil {
+			c.Fail("decode-again:error", fmt.Sprintf("the same bytes were rejected when decoded a second time: %v (%s)", err, shape(e)), wit{mon.Hex(snap), shape(e), fmt.Sprint(err)})
+		} else {
+			getters(c, "decode-again-after-editing-the-first-object", x2, e, snap)
+		}
+	}
 	// a flavour-specific setter on the decoded object is reflected by the next encoding
 	{
 		y, _ := ebp.ReadEncoderBoundaryPoint(append([]byte{}, snap...))
